@@ -43,6 +43,23 @@ Theorem c14_all_or_none m maxq acts :
          (calls (run m maxq acts)).
 Proof. exact (all_or_none m maxq acts). Qed.
 
+(* The admission rule of a bounded queue, stated for the bytes that are actually cut into fragments: with k the number
+   of fragments of the DEFLATED payload when compression applies (its length is an oracle input [z], see SendQueue.v),
+   of the raw payload otherwise, a WriteMessage on an open connection is refused as a whole exactly when
+   len(queue) + k > bound, and then nothing of it is queued or accepted; otherwise it starts with all k frames to do -
+   and by c14_all_or_none none of them can be refused later. *)
+Theorem c14_admission maxq s limit mid ctl raw z :
+  holder s = None -> closed s = false -> 0 < maxq ->
+  let k := nframes limit ctl (wire_len raw z) in
+  let fs := msg_frames mid k in
+  let s' := step Queued maxq s (begin_msg limit mid ctl raw z) in
+  length fs = k /\
+  (maxq < length (slots s) + k ->
+     calls s' = calls s ++ [(fs, [], RFull)] /\ slots s' = slots s /\ dr s' = dr s /\ holder s' = None /\ accepted s' = accepted s) /\
+  (length (slots s) + k <= maxq ->
+     holder s' = Some {| cfs := fs; cacc := []; crest := fs |} /\ calls s' = calls s /\ slots s' = slots s).
+Proof. exact (admission maxq s limit mid ctl raw z). Qed.
+
 (* Nothing lost, nothing duplicated while the connection is open: with no drainer alive the wire IS the accepted
    frame sequence; and from every state in which no call holds the mutex the drainer's own steps (socket accepting)
    reach such a state without accepting or finishing anything else - no accepted frame is stranded in the queue. *)
@@ -126,6 +143,14 @@ Example c14_full_nonvacuous :
   calls s = [([1;2;3],[],RFull); ([4;5],[4;5],ROk); ([6],[],RFull)] /\ holder s = None /\ accepted s = [4;5].
 Proof. vm_compute. repeat split. Qed.
 
+(* frame limit 16, bound 4, one frame already queued behind the drainer's: an incompressible 32 byte payload is 2 fragments
+   raw but 38 bytes = 3 fragments deflated - it is refused as a whole (2 would have fitted); uncompressed it is taken *)
+Example c14_admission_nonvacuous :
+  let pre := [Begin [100]; Frame true; Begin [200]; Frame true] in
+  calls (run Queued 4 (pre ++ [begin_msg 16 3 false 32 (Some 38)])) = [([100],[100],ROk); ([200],[200],ROk); ([300;301;302],[],RFull)] /\
+  accepted (run Queued 4 (pre ++ [begin_msg 16 3 false 32 None; Frame true; Frame true])) = [100; 200; 300; 301].
+Proof. vm_compute. repeat split. Qed.
+
 (* upgrade, two messages, the second dispatched while the first runs, connection closed while it runs, a third message
    refused, the close job queued behind; pool executor *)
 Example c14_order_nonvacuous :
@@ -143,6 +168,7 @@ Proof. vm_compute. repeat split; discriminate. Qed.
 
 Print Assumptions c14_whole.
 Print Assumptions c14_all_or_none.
+Print Assumptions c14_admission.
 Print Assumptions c14_no_loss_no_dup.
 Print Assumptions c14_whole_messages.
 Print Assumptions c14_single_drainer.
